@@ -15,4 +15,4 @@ one() {
 }
 export -f one
 if [ $# -eq 0 ]; then set -- /verif/seeded/*/patch.diff /verif/variants/*.patch; fi
-printf '%s\n' "$@" | xargs -P 12 -I{} bash -c 'one {}' | sort
+printf "%s\n" "$@" | while read f; do readlink -f "$f"; done | xargs -P 12 -I{} bash -c 'one {}' | sort
